@@ -5,4 +5,4 @@ From Coq Require Extraction ExtrOcamlBasic.
 From V Require Import Base.Prelude Base.Val Hub.Codec Hub.Monitor Hub.World Hub.Genesis Hub.Votes Hub.VotesMon Hub.VotesHeight Hub.SignerSet Hub.Prune Ext.Checkpoint Ext.ClaimHash Hub.Registry Oracle.Oracle Oracle.OracleMon Conn.Connector Conn.ConnMon Ext.Hub2Sol Ext.Hub2SolMon.
 
 Extraction Language OCaml.
-Extraction "model.ml" hub_run blocks_run mon_C04 mon_C10 mon_C12 mon_C13 mon_C11 mon_C19 votes_run mon_C02 mon_C03 sigset_run mon_C09 ckpt_run sig_run mon_C07_ckpt mon_C07_sig claim_run mon_C14 reg_run mon_C16 mon_C17 oracle_run mon_C18 conn_run cmd_run mon_C20_conn mon_C20_cmd relay_run mon_C20_relay evm_run mon_C08 mon_C08_sigset mon_C08_hub mon_C08_reg prune_run mon_C08_prune votesh_run mon_C13_votes mon_C01_votes genesis_run det_run mon_C01 mon_C05_hub mon_C05_votes mon_C05_oracle mon_C15_hub votesgen_run mon_C15_votes oraclegen_run mon_C15_oracle reggen_run mon_C15_reg.
+Extraction "model.ml" hub_run blocks_run mon_C04 mon_C10 mon_C12 mon_C13 mon_C11 mon_C19 votes_run mon_C02 mon_C03 sigset_run mon_C09 ckpt_run sig_run mon_C07_ckpt mon_C07_sig claim_run mon_C14 reg_run mon_C16 mon_C17 oracle_run mon_C18 conn_run cmd_run mon_C20_conn mon_C20_cmd relay_run mon_C20_relay evm_run mon_C08 mon_C08_sigset mon_C08_hub mon_C08_reg prune_run mon_C08_prune mon_C09_prune votesh_run mon_C13_votes mon_C01_votes genesis_run det_run mon_C01 mon_C05_hub mon_C05_votes mon_C05_oracle mon_C15_hub votesgen_run mon_C15_votes oraclegen_run mon_C15_oracle reggen_run mon_C15_reg.
